@@ -3,6 +3,7 @@
    S <hex|-> <k>             -> incremental: crc(b[k:], crc(b[:k])) table-driven, bit-serial
    L <hex|-> <len> <init>    -> CalculateCRC(buf, len, init) or OOB
    ENC <seq0> t:v:src:hex,.. -> outputs (hex | ERR) joined by ',' then final counter   (ENCL: pre-fix counter)
+   VV <hdrmsg> <off> <buf>.. -> validate_crc of one header on each buffer (pure in the model): outcomes, crc, size
    B <hex>                   -> set the base message; prints its analysis
    E <byteoff> <xorhex> ...  -> analysis of base with each xorhex applied at its byteoff
    HC t:v:seq:src:hex        -> MessageHeader.calculate_crc: "<crc> <payload_size_bytes>" | ERR
@@ -60,6 +61,13 @@ let () =
         let cs = List.map parse_call (String.split_on_char ',' calls) in
         let (outs, s1) = (if c = "ENC" then encoder_run else encoder_run_legacy) (n_of_int (int_of_string s0)) cs in
         Printf.printf "%s %d\n" (String.concat "," (List.map (function None -> "ERR" | Some b -> hex_of_bytes b) outs)) (int_of_n s1)
+     | "VV" :: hdr :: off :: bufs ->
+        let hb = bytes_of_hex hdr in
+        let h = parse_header (List.filteri (fun i _ -> i < 24) hb) in
+        let o = n_of_int (int_of_string off) in
+        let one b = match encoder_validate_crc h (bytes_of_hex b) o with
+          | VcOk -> "ok" | VcTooBig -> "big" | VcNotEnough -> "notenough" | VcMismatch -> "mismatch" in
+        Printf.printf "%s %d %d\n" (String.concat "," (List.map one bufs)) (int_of_n h.h_crc) (int_of_n h.h_psize)
      | ["FM"; c] -> framer_cap := int_of_string c; print_endline "ok"
      | ["B"; h] -> base := bytes_of_hex h; print_endline (analysis !base)
      | "E" :: rest ->
